@@ -467,3 +467,53 @@ pub fn describe_msg(m: &LMsg) -> String {
         attrs.join(", ")
     )
 }
+
+/// OpaqueString (RFC 8265) test strings beyond the stable alphabet: returns (raw, enforced)
+/// where `enforced` is what OpaqueString enforcement must produce.  Only constructs whose
+/// mapping is known exactly are generated: non-ASCII spaces (mapped to U+0020) and
+/// base letter + one combining mark that has a precomposed Latin-1 form (NFC).
+pub fn opaque_string_case(rng: &mut Rng, min: usize, max: usize) -> (String, String) {
+    const SPACES: [char; 8] = ['\u{a0}', '\u{1680}', '\u{2000}', '\u{2003}', '\u{200a}', '\u{202f}', '\u{205f}', '\u{3000}'];
+    // (base, mark, composed)
+    const COMP: [(char, char, char); 14] = [
+        ('a', '\u{301}', '\u{e1}'),
+        ('e', '\u{301}', '\u{e9}'),
+        ('i', '\u{301}', '\u{ed}'),
+        ('o', '\u{301}', '\u{f3}'),
+        ('u', '\u{301}', '\u{fa}'),
+        ('a', '\u{300}', '\u{e0}'),
+        ('e', '\u{300}', '\u{e8}'),
+        ('o', '\u{302}', '\u{f4}'),
+        ('n', '\u{303}', '\u{f1}'),
+        ('A', '\u{308}', '\u{c4}'),
+        ('u', '\u{308}', '\u{fc}'),
+        ('c', '\u{327}', '\u{e7}'),
+        ('E', '\u{301}', '\u{c9}'),
+        ('O', '\u{303}', '\u{d5}'),
+    ];
+    let target = min + rng.below((max - min) as u64 + 1) as usize;
+    let (mut raw, mut enf) = (String::new(), String::new());
+    while raw.len() < target.max(1) {
+        match rng.below(6) {
+            0 => {
+                let c = *rng.pick(&SPACES);
+                raw.push(c);
+                enf.push(' ');
+            }
+            1 => {
+                let (b, m, c) = *rng.pick(&COMP);
+                raw.push(b);
+                raw.push(m);
+                enf.push(c);
+            }
+            _ => {
+                // stable character that does not combine with a preceding base: digits,
+                // punctuation, upper-case consonants, CJK
+                let c = *rng.pick(&['0', '7', '-', '_', '.', 'Z', 'K', 'x', '\u{4e2d}', '\u{0436}', '!', '#']);
+                raw.push(c);
+                enf.push(c);
+            }
+        }
+    }
+    (raw, enf)
+}
